@@ -39,7 +39,11 @@ func init() {
 const c13Slot = 1
 
 var c13Owned = []uint16{1, 2, 3}
+// hash slots 1-3 are owned, 4 is registered as an incoming migration target (deltas for it
+// are expected, it is part of FSM.Snapshot), 5 is neither: nothing may ever be written there
+var c13Incoming = []uint16{4}
 var c13DigestSlots = []uint16{1, 2, 3, 4}
+var c13ForeignSlots = []uint16{5}
 
 type c13Cmd struct {
 	index    uint64
@@ -59,6 +63,7 @@ type c13FSM interface {
 	multiraft.BatchStateMachine
 	DurableAppliedIndex(ctx context.Context) (uint64, error)
 	UpdateOutgoingDeltaTargets(targets map[uint16]multiraft.SlotID)
+	UpdateIncomingDeltaHashSlots(hashSlots []uint16)
 }
 
 type c13Inst struct {
@@ -84,6 +89,7 @@ func c13Open(dir string) *c13Inst {
 	}
 	// hash slot 2 is being migrated to slot 7 (delta phase): every applied command on it is also staged to the outbox
 	f.UpdateOutgoingDeltaTargets(map[uint16]multiraft.SlotID{2: 7})
+	f.UpdateIncomingDeltaHashSlots(c13Incoming)
 	return &c13Inst{dir: dir, db: db, sm: f}
 }
 
@@ -120,6 +126,15 @@ func (in *c13Inst) state() string {
 	}
 	sum := sha256.Sum256(snap.Data)
 	return fmt.Sprintf("@%d:%s", applied, hex.EncodeToString(sum[:6]))
+}
+
+func (in *c13Inst) foreign() string {
+	snap, err := in.db.ExportHashSlotSnapshot(context.Background(), c13ForeignSlots)
+	if err != nil {
+		return "err"
+	}
+	sum := sha256.Sum256(snap.Data)
+	return hex.EncodeToString(sum[:6])
 }
 
 func c13ErrClass(err error) string {
@@ -180,6 +195,13 @@ func (r *c13Runner) run(plan []string) string {
 	defer func() { in.close(true) }()
 	var out []string
 	out = append(out, "I"+in.state())
+	foreign0 := in.foreign()
+	foreignAt := uint64(0) // index of the command after which the unowned hash slot first changed
+	checkForeign := func(idx uint64) {
+		if foreignAt == 0 && in.foreign() != foreign0 {
+			foreignAt = idx
+		}
+	}
 	pos := 0
 	singles := func(cmds []c13Cmd) {
 		for _, c := range cmds {
@@ -189,6 +211,7 @@ func (r *c13Runner) run(plan []string) string {
 			} else {
 				out = append(out, fmt.Sprintf("%d:%s%s", c.index, res[0], in.state()))
 			}
+			checkForeign(c.index)
 		}
 	}
 	for _, item := range plan {
@@ -237,6 +260,7 @@ func (r *c13Runner) run(plan []string) string {
 				continue
 			}
 			res, ec := in.apply(batch)
+			checkForeign(batch[len(batch)-1].index)
 			if ec == "" {
 				parts := make([]string, len(batch))
 				for i, c := range batch {
@@ -264,8 +288,10 @@ func (r *c13Runner) run(plan []string) string {
 	if pos < len(r.cmds) {
 		singles(r.cmds[pos:])
 	}
-	if len(out) == 0 {
-		return "-"
+	if foreignAt == 0 {
+		out = append(out, "U=-")
+	} else {
+		out = append(out, fmt.Sprintf("U=%d", foreignAt))
 	}
 	return strings.Join(out, " ")
 }
@@ -325,8 +351,11 @@ func c13FillUint(g *Gen, name string) uint64 {
 	n := strings.ToLower(name)
 	switch {
 	case strings.Contains(n, "hashslot"):
-		if g.R.Chance(4) {
+		switch {
+		case g.R.Chance(4):
 			return 4
+		case g.R.Chance(2):
+			return 5
 		}
 		return uint64(g.R.Range(1, 3))
 	case strings.Contains(n, "channeltype"):
@@ -644,9 +673,12 @@ func genC13(g *Gen) {
 				var inner []byte
 				name, inner = c13MakeCmd(g)
 				name = "applyDelta(" + name + ")"
+				if g.R.Chance(25) {
+					hs = 4 // a delta for the incoming hash slot
+				}
 				dhs := hs
 				if g.R.Chance(10) {
-					dhs = uint16(g.R.Range(1, 4))
+					dhs = uint16(g.R.Range(1, 4)) // envelope / payload mismatch
 				}
 				data = fsm.EncodeApplyDeltaCommand(multiraft.SlotID(g.R.Range(2, 3)), uint64(g.R.Range(1, 6)), dhs, inner)
 			case 2: // exact retry / replay of an earlier payload (conflicts, idempotence)
@@ -690,7 +722,7 @@ func genC13(g *Gen) {
 			}
 			switch g.R.Pick(90, 5*envW, 3*envW, 2*envW) {
 			case 1:
-				hs = 4
+				hs = uint16(g.R.Range(4, 5))
 				g.Count("envelope:unowned-hash-slot")
 			case 2:
 				hs = 0
